@@ -13,6 +13,7 @@ import (
 	"os"
 	"path/filepath"
 	"regexp"
+	"sort"
 	"strings"
 )
 
@@ -72,6 +73,36 @@ type fnSig struct {
 	// function): Go checks hi against the CAPACITY, the translation against the length (capacity is not modelled), so
 	// callers inside the translated code must pass slices without spare capacity
 	capIdx []int
+	// errAtType: for a function that builds &T{err, off} errors, the type T ("path.Name"): errors.As(err, &e) with e *T is
+	// then known to succeed on every error the function returns
+	errAtType string
+	errPtr    bool // the errors are *T (built as &T{…})
+	// parameters that stand for things the translation does not define — abstract methods, library functions
+	// (externFns), fields of package-level structs: name and Lean type, in the order of the generated definition; every
+	// caller passes them on (and so has them as parameters itself)
+	deps [][2]string
+}
+
+// externFns: library functions that are not modelled but passed in as PARAMETERS of the translated functions that use
+// them (and of their callers): the tie theorems state what they assume about them.
+var externFns = map[string]struct {
+	param, ty string
+	args      []lkind
+	ret       lkind
+}{
+	"strings.ToLower":   {"strings_ToLower", "List (BitVec 8) → List (BitVec 8)", []lkind{kString}, kString},
+	"strings.ToUpper":   {"strings_ToUpper", "List (BitVec 8) → List (BitVec 8)", []lkind{kString}, kString},
+	"strings.LastIndex": {"strings_LastIndex", "List (BitVec 8) → List (BitVec 8) → BitVec 64", []lkind{kString, kString}, kInt},
+}
+
+// depArgs returns the dependency arguments for a call of sig and records them as dependencies of the caller.
+func (t *loopTr) depArgs(sig *fnSig) []string {
+	var out []string
+	for _, d := range sig.deps {
+		t.absDeps[d[0]] = d[1]
+		out = append(out, d[0])
+	}
+	return out
 }
 
 // loopSigs: the translated functions by "import path.name".
@@ -93,6 +124,19 @@ func (t *loopTr) sigOf(c *ast.CallExpr) (*fnSig, *types.Func) {
 		}
 	}
 	if id == nil {
+		// v.m(…) on a package-level variable v of type *T (T a struct of the package): the fields of v that m reads are
+		// parameters v_f of the translation (read-only: m must not assign fields, nothing may assign v)
+		if f, ok := unparen(c.Fun).(*ast.SelectorExpr); ok {
+			if x, ok := unparen(f.X).(*ast.Ident); ok {
+				if v, ok := t.info.Uses[x].(*types.Var); ok && !v.IsField() && v.Parent() == t.set.tp.tpkg.Scope() {
+					if fn, ok := t.info.Uses[f.Sel].(*types.Func); ok && fn.Pkg() != nil {
+						if sig := loopSigs[sigKey(fn.Pkg().Path(), recvTypeName(fn)+"."+fn.Name())]; sig != nil {
+							return sig, fn
+						}
+					}
+				}
+			}
+		}
 		// c.m(…) on the receiver of the method being translated
 		if f, ok := unparen(c.Fun).(*ast.SelectorExpr); ok && t.recv != nil && !t.ctor {
 			if x, ok := unparen(f.X).(*ast.Ident); ok && t.info.Uses[x] == t.recv {
@@ -196,13 +240,21 @@ func (t *loopTr) callOuts(c *ast.CallExpr) []types.Object {
 
 // flowCall translates a call statement (see callHeaderText); rest renders what follows it.
 func (t *loopTr) flowCall(st ast.Stmt, c *ast.CallExpr, sig *fnSig, lhs []ast.Expr, tok token.Token, ind string, m blockMode, rest func(string) string) string {
-	if sig.errAt != t.errAt && hasErr(sig.rets) {
-		t.fail(c, "call of %s: not supported here", sig.lean)
-	}
+
 	// a method on the same receiver: its fields are passed, the ones it assigns are written back
 	var fieldArgs []string
 	fieldObj := map[string]types.Object{}
-	if sig.method {
+	if pv := t.pkgRecv(c); pv != nil {
+		if len(sig.fieldsOut) != 0 {
+			t.fail(c, "call of %s on the package variable %s: the method assigns fields of its receiver", sig.lean, pv.Name())
+		}
+		t.set.checkOnlyMethodCalls(t, pv, c)
+		for _, n := range sig.fieldsIn {
+			dep := pv.Name() + "_" + n
+			t.absDeps[dep] = sig.fieldKinds[n].lean()
+			fieldArgs = append(fieldArgs, dep)
+		}
+	} else if sig.method {
 		for _, f := range t.fields {
 			fieldObj[f.Name()] = f
 		}
@@ -339,14 +391,34 @@ func (t *loopTr) flowCall(st ast.Stmt, c *ast.CallExpr, sig *fnSig, lhs []ast.Ex
 			continue
 		}
 		o, name, k := t.scalarTarget(lhs[i])
-		if k != sig.rets[i] {
+		conv := ""
+		switch {
+		case k == sig.rets[i]:
+		case k == kErrOpt && sig.rets[i] == kErr:
+			conv = "Go.errOfPlain "
+		case k == kErrOpt && sig.rets[i] == kErrAt:
+			conv = "Go.errOfAt "
+		default:
 			t.fail(st, "assignment of %s to %s", sig.rets[i].lean(), k.lean())
+		}
+		if isErrKind(k) {
+			t.errFrom[o] = sig
 		}
 		if k.isSlice() && t.params[o] {
 			t.fail(st, "assignment to the slice parameter %s", name)
 		}
 		// the results are assigned AFTER the call has returned, i.e. after the callee's writes: bound last
-		fmt.Fprintf(&resB, "%slet %s : %s := %s\n", ind, name, k.lean(), proj(stn, i, n))
+		val := proj(stn, i, n)
+		if isErrKind(k) && sig.pkg != nil && sig.pkg != t.set.tp.tpkg {
+			// an error of another package: its variable names are qualified by that package's name
+			q := map[lkind]string{kErr: "Go.errQual", kErrAt: "Go.errQualAt", kErrOpt: "Go.errQualOpt"}[sig.rets[i]]
+			val = fmt.Sprintf("(%s %s %s)", q, leanString(sig.pkg.Name()), val)
+		}
+		if conv != "" {
+			fmt.Fprintf(&resB, "%slet %s : %s := (%s%s)\n", ind, name, k.lean(), conv, val)
+		} else {
+			fmt.Fprintf(&resB, "%slet %s : %s := %s\n", ind, name, k.lean(), val)
+		}
 	}
 	for j, fn := range sig.fieldsOut {
 		f := fieldObj[fn]
@@ -370,7 +442,7 @@ func (t *loopTr) flowCall(st ast.Stmt, c *ast.CallExpr, sig *fnSig, lhs []ast.Ex
 		fmt.Fprintf(&b, "%slet %s : %s := %s\n", ind, name, t.objType(w.o), val)
 	}
 	b.WriteString(resB.String())
-	call := "(" + strings.Join(append(append([]string{sig.lean}, fieldArgs...), args...), " ") + ")"
+	call := "(" + strings.Join(append(append(append([]string{sig.lean}, t.depArgs(sig)...), fieldArgs...), args...), " ") + ")"
 	if len(tys) == 0 {
 		t.fail(c, "call of %s, which has neither result nor effect", sig.lean)
 	}
@@ -383,7 +455,7 @@ func (t *loopTr) flowCall(st ast.Stmt, c *ast.CallExpr, sig *fnSig, lhs []ast.Ex
 
 func hasErr(ks []lkind) bool {
 	for _, k := range ks {
-		if k == kErr || k == kErrAt {
+		if isErrKind(k) {
 			return true
 		}
 	}
@@ -440,6 +512,9 @@ func (t *loopTr) argValue(a ast.Expr) (string, lkind) {
 	}
 	if se.High != nil && k != kString {
 		t.noteCapSensitive(se.X)
+		if o := t.varOf(se.X); o != nil && t.spareCap[o] {
+			t.fail(a, "`%s` has spare capacity (it was cut by x = x[:k]): slicing it with an upper bound is checked against the capacity, which is not modelled", o.Name())
+		}
 	}
 	bound := func(e ast.Expr) (nat, bv string) {
 		if tv := t.typeOf(e); tv.Value != nil {
@@ -603,6 +678,15 @@ func (t *loopTr) builderStmt(s *ast.ExprStmt, o types.Object, method string) []b
 			t.fail(s, "WriteByte of %s", k.lean())
 		}
 		return []binding{{name: name, kind: kBytes, val: fmt.Sprintf("(%s ++ [%s])", name, v), checks: t.takeChecks()}}
+	case "WriteString":
+		if len(c.Args) != 1 {
+			t.fail(s, "arity")
+		}
+		v, k := t.expr(c.Args[0])
+		if k != kString {
+			t.fail(s, "WriteString of %s", k.lean())
+		}
+		return []binding{{name: name, kind: kBytes, val: fmt.Sprintf("(%s ++ %s)", name, v), checks: t.takeChecks()}}
 	case "Grow":
 		if len(c.Args) != 1 {
 			t.fail(s, "arity")
@@ -616,7 +700,7 @@ func (t *loopTr) builderStmt(s *ast.ExprStmt, o types.Object, method string) []b
 		}
 		return []binding{{name: "", checks: t.takeChecks()}}
 	}
-	t.fail(s, "strings.Builder.%s is not supported (only WriteByte, Grow and String)", method)
+	t.fail(s, "strings.Builder.%s is not supported (only WriteByte, WriteString, Grow and String)", method)
 	return nil
 }
 
@@ -661,7 +745,7 @@ func (t *loopTr) sigCall(x *ast.CallExpr, sig *fnSig) (string, lkind) {
 		t.fail(x, "unsupported call %s", t.p.src(x))
 	}
 	t.checkCapArgs(x, sig)
-	parts := []string{sig.lean}
+	parts := append([]string{sig.lean}, t.depArgs(sig)...)
 	for i, a := range x.Args {
 		v, k := t.argValue(a)
 		if k != sig.params[i] && !(sig.params[i] == kBytes && k == kString) {
@@ -691,6 +775,15 @@ func (t *loopTr) register(leanName string) {
 			}
 			idx++
 		}
+	}
+	sig.errAtType, sig.errPtr = t.builtErrType()
+	var dn []string
+	for n := range t.absDeps {
+		dn = append(dn, n)
+	}
+	sort.Strings(dn)
+	for _, n := range dn {
+		sig.deps = append(sig.deps, [2]string{n, t.absDeps[n]})
 	}
 	key := t.fd.Name.Name
 	if t.fd.Recv != nil {
@@ -795,11 +888,11 @@ func (t *loopTr) hoistCalls(ind string, m blockMode, skip *ast.CallExpr, ns ...a
 	var b strings.Builder
 	for _, c := range calls {
 		sig, _ := t.sigOf(c)
-		if len(sig.outIdx) != 0 || len(sig.rets) != 1 || sig.method || c.Ellipsis.IsValid() || len(c.Args) != len(sig.params) {
-			t.fail(c, "call of %s inside an expression: only functions with one result that do not write into a parameter are supported there (otherwise as a statement of its own)", sig.lean)
+		if len(sig.outIdx) != 0 || len(sig.rets) != 1 || len(sig.fieldsOut) != 0 || c.Ellipsis.IsValid() || len(c.Args) != len(sig.params) {
+			t.fail(c, "call of %s inside an expression: only functions with one result that do not write into a parameter or a field are supported there (otherwise as a statement of its own)", sig.lean)
 		}
 		t.checkCapArgs(c, sig)
-		parts := []string{sig.lean}
+		parts := append(append([]string{sig.lean}, t.depArgs(sig)...), t.readOnlyRecvArgs(c, sig)...)
 		for i, a := range c.Args {
 			v, k := t.argValue(a)
 			if k != sig.params[i] && !(sig.params[i] == kBytes && k == kString) {
@@ -994,10 +1087,241 @@ func (t *loopTr) checkCapArgs(c *ast.CallExpr, sig *fnSig) {
 		if ix, ok := base.(*ast.IndexExpr); ok {
 			base = unparen(ix.X) // a row of a slice of slices: the rows are the caller's
 		}
+		if o := t.varOf(base); o != nil && t.spareCap[o] {
+			t.fail(a, "%s slices this parameter with an upper bound, which Go checks against the capacity: `%s` has spare capacity (it was cut by x = x[:k]), which is not modelled", sig.lean, o.Name())
+		}
 		if o := t.varOf(base); o != nil && t.params[o] {
 			if _, isSlice := o.Type().Underlying().(*types.Slice); isSlice {
 				t.capSens[o] = true
 			}
 		}
 	}
+}
+
+// pkgRecv returns v when c is v.m(…) with v a package-level variable.
+func (t *loopTr) pkgRecv(c *ast.CallExpr) *types.Var {
+	f, ok := unparen(c.Fun).(*ast.SelectorExpr)
+	if !ok {
+		return nil
+	}
+	x, ok := unparen(f.X).(*ast.Ident)
+	if !ok {
+		return nil
+	}
+	v, ok := t.info.Uses[x].(*types.Var)
+	if !ok || v.IsField() || v.Parent() != t.set.tp.tpkg.Scope() {
+		return nil
+	}
+	return v
+}
+
+// checkOnlyMethodCalls: every use of the package variable v in the package is the receiver of a method call (so nothing
+// reassigns it, takes its address or reaches its fields directly); its value is the one its initialiser gave it.
+func (s *loopSet) checkOnlyMethodCalls(t *loopTr, v *types.Var, at ast.Node) {
+	ok := map[*ast.Ident]bool{}
+	for _, fn := range s.p.sortedFiles() {
+		ast.Inspect(s.p.files[fn], func(n ast.Node) bool {
+			if c, isCall := n.(*ast.CallExpr); isCall {
+				if f, isSel := unparen(c.Fun).(*ast.SelectorExpr); isSel {
+					if x, isId := unparen(f.X).(*ast.Ident); isId && s.tp.info.Uses[x] == v {
+						if _, isFn := s.tp.info.Uses[f.Sel].(*types.Func); isFn {
+							ok[x] = true
+						}
+					}
+				}
+			}
+			return true
+		})
+	}
+	for id, o := range s.tp.info.Uses {
+		if o == v && !ok[id] {
+			pos := s.p.fset.Position(id.Pos())
+			t.fail(at, "package variable %s is used other than as the receiver of a method call at %s:%d", v.Name(), pos.Filename, pos.Line)
+		}
+	}
+}
+
+// ---------------------------------------------------------------- error carriers
+
+// mixesErrors decides whether the function needs the error carrier with an OPTIONAL position: it does when its error
+// values come from more than one of: &T{err, off} literals, plain errors (package error variables, fmt.Errorf with %w,
+// outside such a literal), callees whose error carrier is plain / positioned / optional.
+func (t *loopTr) mixesErrors() (at, opt bool) {
+	kinds := map[lkind]bool{}
+	var walk func(n ast.Node, inLit bool)
+	walk = func(n ast.Node, inLit bool) {
+		ast.Inspect(n, func(m ast.Node) bool {
+			switch x := m.(type) {
+			case *ast.UnaryExpr:
+				if x.Op == token.AND {
+					if cl, ok := unparen(x.X).(*ast.CompositeLit); ok {
+						if tv, ok := t.info.Types[cl]; ok {
+							if _, _, ok := t.errAtType(tv.Type); ok {
+								kinds[kErrAt] = true
+								for _, el := range cl.Elts {
+									walk(el, true)
+								}
+								return false
+							}
+						}
+					}
+				}
+			case *ast.CallExpr:
+				if sig, _ := t.sigOf(x); sig != nil {
+					for _, k := range sig.rets {
+						if isErrKind(k) {
+							kinds[k] = true
+						}
+					}
+				}
+				if sel, ok := unparen(x.Fun).(*ast.SelectorExpr); ok && !inLit {
+					if f, ok := t.info.Uses[sel.Sel].(*types.Func); ok && f.Pkg() != nil && f.Pkg().Path() == "fmt" && f.Name() == "Errorf" {
+						kinds[kErr] = true
+						return false
+					}
+				}
+			case *ast.Ident:
+				if v, ok := t.info.Uses[x].(*types.Var); ok && !inLit && !v.IsField() && v.Pkg() != nil && v.Parent() == v.Pkg().Scope() &&
+					types.Identical(v.Type(), types.Universe.Lookup("error").Type()) {
+					kinds[kErr] = true
+				}
+			}
+			return true
+		})
+	}
+	walk(t.fd.Body, false)
+	switch {
+	case len(kinds) == 0, len(kinds) == 1 && kinds[kErr]:
+		return false, false
+	case len(kinds) == 1 && kinds[kErrAt]:
+		return true, false
+	}
+	return true, true
+}
+
+// errorsAs recognises `errors.As(err, &e)` and returns the objects of err and e.
+func (t *loopTr) errorsAs(e ast.Expr) (types.Object, types.Object) {
+	c, ok := unparen(e).(*ast.CallExpr)
+	if !ok || len(c.Args) != 2 {
+		return nil, nil
+	}
+	sel, ok := unparen(c.Fun).(*ast.SelectorExpr)
+	if !ok {
+		return nil, nil
+	}
+	f, ok := t.info.Uses[sel.Sel].(*types.Func)
+	if !ok || f.Pkg() == nil || f.Pkg().Path() != "errors" || f.Name() != "As" {
+		return nil, nil
+	}
+	src, ok1 := unparen(c.Args[0]).(*ast.Ident)
+	u, ok2 := unparen(c.Args[1]).(*ast.UnaryExpr)
+	if !ok1 || !ok2 || u.Op != token.AND {
+		return nil, nil
+	}
+	dst, ok := unparen(u.X).(*ast.Ident)
+	if !ok {
+		return nil, nil
+	}
+	return t.objOf(src), t.objOf(dst)
+}
+
+// asCondition translates the condition `errors.As(err, &e)`: err holds the error result of a translated callee all of
+// whose errors are *T values (it builds them as &T{…}) and e is a *T: then As succeeds exactly when err != nil, and e is
+// that error (its wrapped error's name: Go.errName, its offset: Go.errOff).
+func (t *loopTr) asCondition(cond ast.Expr) (string, bool) {
+	so, do := t.errorsAs(cond)
+	if so == nil || do == nil {
+		return "", false
+	}
+	sig := t.errFrom[so]
+	if sig == nil || sig.errAtType == "" || t.facts.plain[so] != 0 || len(t.facts.defs[so]) != 1 {
+		t.fail(cond, "errors.As: the first operand must be a variable that holds the error result of a translated function which builds all its errors as &T{…}")
+	}
+	ptr, ok := do.Type().(*types.Pointer)
+	if !ok {
+		t.fail(cond, "errors.As: the target must be a pointer to the callee's error struct")
+	}
+	named, ok := ptr.Elem().(*types.Named)
+	if !ok || named.Obj().Pkg() == nil || named.Obj().Pkg().Path()+"."+named.Obj().Name() != sig.errAtType {
+		t.fail(cond, "errors.As: the target type %s is not the error type %s of the callee", do.Type(), sig.errAtType)
+	}
+	if !sig.errPtr {
+		t.fail(cond, "errors.As: the callee returns its error struct by value, the target is a pointer to it")
+	}
+	t.asBound[do] = so
+	return "(" + t.vars[so] + ").isSome", true
+}
+
+// builtErrType returns "path.T" when every &T{…} error literal of the function has the same struct type T.
+func (t *loopTr) builtErrType() (string, bool) {
+	name := ""
+	ok := true
+	ast.Inspect(t.fd.Body, func(n ast.Node) bool {
+		if u, isU := n.(*ast.UnaryExpr); isU && u.Op == token.AND {
+			if cl, isCl := unparen(u.X).(*ast.CompositeLit); isCl {
+				if tv, has := t.info.Types[cl]; has {
+					if _, _, isErr := t.errAtType(tv.Type); isErr {
+						nm := tv.Type.(*types.Named)
+						full := nm.Obj().Pkg().Path() + "." + nm.Obj().Name()
+						if name != "" && name != full {
+							ok = false
+						}
+						name = full
+					}
+				}
+			}
+		}
+		return true
+	})
+	if !ok || t.errOpt {
+		return "", false
+	}
+	return name, name != ""
+}
+
+// isAsTarget: o is declared `var e *T` and is only used as `&e` in errors.As, as e.Unwrap() and as e.Offset.
+func (t *loopTr) isAsTarget(o types.Object) bool {
+	if o == nil {
+		return false
+	}
+	found := false
+	ast.Inspect(t.fd.Body, func(n ast.Node) bool {
+		if c, ok := n.(*ast.CallExpr); ok {
+			if _, d := t.errorsAs(c); d == o {
+				found = true
+			}
+		}
+		return true
+	})
+	return found
+}
+
+// readOnlyRecvArgs returns the field arguments for a call of a method that assigns no field: the fields of the caller's
+// own receiver, or the parameters v_f standing for the fields of a package-level struct variable v.
+func (t *loopTr) readOnlyRecvArgs(c *ast.CallExpr, sig *fnSig) []string {
+	if !sig.method {
+		return nil
+	}
+	var out []string
+	if pv := t.pkgRecv(c); pv != nil {
+		t.set.checkOnlyMethodCalls(t, pv, c)
+		for _, n := range sig.fieldsIn {
+			dep := pv.Name() + "_" + n
+			t.absDeps[dep] = sig.fieldKinds[n].lean()
+			out = append(out, dep)
+		}
+		return out
+	}
+	byName := map[string]types.Object{}
+	for _, f := range t.fields {
+		byName[f.Name()] = f
+	}
+	for _, n := range sig.fieldsIn {
+		f := byName[n]
+		if f == nil {
+			t.fail(c, "internal error: field %s of the receiver is not registered", n)
+		}
+		out = append(out, t.vars[f])
+	}
+	return out
 }
